@@ -97,10 +97,10 @@ Definition Gc : fenv := FEnv (fun _ _ => None) (fun n => if String.eqb n "interp
 (* equal as numbers (the Python int 0 stored by `cdf_array[0] = 0` is the float 0.0 in the numpy array) *)
 Definition same_reals (a b : val) : Prop := match to_x a, to_x b with Some (Fin x), Some (Fin y) => x = y | _, _ => False end.
 Theorem approx_cdf_three e0 e1 e2 e3 w0 w1 w2 rg cu : w0 + (w1 + (w2 + 0)) <> 0 ->
-  let edges := VList [num e0; num e1; num e2; num e3] in
+  let edges := VArr [num e0; num e1; num e2; num e3] in
   exists c',
-  yields Gc 80 (CFun src_fn_approx_cdf_1d) None [edges; VList [num w0; num w1; num w2]] [] rg cu
-    (VTuple [VList c'; VObj "interp1d" [("x", edges); ("y", VList c')]; VObj "interp1d" [("x", VList c'); ("y", edges)]]) cu []
+  yields Gc 80 (CFun src_fn_approx_cdf_1d) None [edges; VArr [num w0; num w1; num w2]] [] rg cu
+    (VTuple [VArr c'; VObj "interp1d" [("x", edges); ("y", VArr c')]; VObj "interp1d" [("x", VArr c'); ("y", edges)]]) cu []
   /\ Forall2 same_reals c' (map num (cdf [w0; w1; w2])).
 Proof.
   intros Hs edges. subst edges.
